@@ -219,6 +219,7 @@ class Emitter:
         self.member_no = 0
         self.verdict = []      # Rust expressions of type Verdict (over `doc`)
         self.const_bad = []    # statically known enforced violations (strings for the report)
+        self.const_soft = []   # statically known schema violations of a kind typify does not represent (no claim)
         self.members = []      # (path, name, pos_of_value, present, node, prop) of object members, for round-trip checks
         self.leaves = []       # (pos, node, live) of leaves
         self.tags = []         # (key position, variant name) of externally tagged data variants
@@ -340,7 +341,12 @@ class Emitter:
                 self.value(p['sch'], live and present, f'{path}.{p["name"]}', optional_member=not p['required'])
                 self.span_end(ki, vpos)
                 if live and not present and p['required']:
-                    self.const_bad.append(f'required member {path}.{p["name"]} absent')
+                    if p['sch']['k'] in ('nullable', 'null'):
+                        # schema-invalid, but C05 only speaks of required *non-nullable* members: a required
+                        # nullable member is an Option<T> field, which serde fills with None when missing
+                        self.const_soft.append(f'required nullable member {path}.{p["name"]} absent')
+                    else:
+                        self.const_bad.append(f'required member {path}.{p["name"]} absent')
             if extra:
                 self.w(f'put_extra_key(s, &mut doc, {rstrs([p["name"] for p in n["props"]])});')
                 self.pos += 2
@@ -419,6 +425,8 @@ class Emitter:
             e += f'.and({v})'
         if self.const_bad:
             e += '.and(BAD)'
+        if self.const_soft:
+            e += '.and(SOFT)'
         return e
 
 
